@@ -277,3 +277,16 @@ def corpus_histories():
     ops += ['layout', 'reopen', 'get 61 -', 'layout', 'put 61 @5:3', 'reopen', 'get 61 -', 'scan -', 'layout']
     out.append((dict(BASE_CFG, reuse_logs=1), ops))
     return out
+
+
+def huge_value_history():
+    """values above 1 MiB interleaved with small ones, scanned in both directions with direction changes
+    (the DB iterator shrinks its saved-value buffer above 1 MiB)"""
+    hx = lambda s_: s_.encode().hex()
+    cfg = dict(BASE_CFG, write_buffer=4194304)
+    ops = ['open']
+    for i in range(10):
+        ops.append('put %s %s' % (hx('h%02d' % i), '@%d:%d' % (1500000 + 100000 * (i % 3), i) if i % 2 == 0 else '@%d:%d' % (10 + i, i)))
+    ops += ['scan -', 'rscan -', 'iter - L,P,P,P,N,P,P,N,N,P,P,P,P,F,N,L,P', 'iter - S%s,P,N,P,P,N' % hx('h05'), 'flush', 'rscan -',
+            'iter - L,P,P,P,P,P,P,P,P,P,P', 'iter - E%s,P,N,B%s,N,P' % (hx('h07'), hx('h04')), 'layout']
+    return (cfg, ops)
